@@ -7,6 +7,8 @@
 pub use crate::fields::{FieldElement, Fq as RawFq, Fq12, Fq2 as RawFq2, Fq4, Fr as RawFr};
 pub use crate::groups::{GroupElement, G1 as RawG1, G2 as RawG2};
 pub use crate::pairings::verif::*;
+#[cfg(john_yu_sm9_core_verif_lines)]
+pub use crate::pairings::verif_lines;
 pub use crate::pairings::G2Prepared;
 
 /// Raw (Montgomery form) limbs of a public `Fr`, least significant first.
